@@ -56,7 +56,8 @@ def menu(k1s, k2s, tier):
             ops.append(("update_kw", m))
     for variant in ("same_upper", "same_lower", "same_caseless", "same_reversed_mixed", "same_dup_variants",
                     "same_pairs_dup_variants", "value_changed", "extra_key", "missing_key", "extra_key_dup_variants",
-                    "same_userdict_lower", "same_chainmap_mixed", "same_mappingproxy_lower", "userdict_value_changed"):
+                    "same_userdict_lower", "same_chainmap_mixed", "same_mappingproxy_lower", "userdict_value_changed",
+                    "renamed_none_key", "caseless_renamed_to_none"):
         ops += [("eqv", variant), ("nev", variant)]
     return ops
 
@@ -122,6 +123,18 @@ def other_mapping(variant, items, cls):
             d[k.lower()] = v
             d[k.upper()] = v
         return d, False
+    if variant == "renamed_none_key":
+        # same size; the name whose value is None (setdefault(k) stores None) exists only on this side: an absent
+        # name is not a name holding None
+        if not items:
+            return {"ZZ": None}, False
+        i = next((j for j, (_k, v) in enumerate(items) if v is None), 0)
+        return dict(items[:i] + [("ZZ", 5)] + items[i + 1:]), False
+    if variant == "caseless_renamed_to_none":
+        # the other way round (decided by the reflected comparison): the other map holds None under a name this one lacks
+        if not items:
+            return CaselessDict({"zz": None}), False
+        return CaselessDict(items[1:] + [("zz", None)]), False
     if variant == "value_changed":
         if not items:
             return {"ZZ": 0}, False
